@@ -2041,3 +2041,94 @@ Proof.
   intros Hfr c Hi Hfin. pose proof (conservation n progs sched j k i Hfr Hi) as H. cbv zeta in H.
   fold c in H. rewrite (pending_finished j k c Hfin) in H. lia.
 Qed.
+
+Local Close Scope Z_scope.
+(* ================================================================== *)
+(* Bridge to the sequential development: whenever mu is free, the state
+   satisfies the invariant WF of SyncMap/SeqProofs.v (restated here so that
+   this file does not depend on it; Props/C04refs.v checks that the two are
+   the same). So every lemma of the sequential refinement applies at every
+   lock-free moment of every concurrent execution. *)
+(* ================================================================== *)
+Definition seq_WF (s : mstate) : Prop :=
+  (forall k1 k2 e, read_m s !! k1 = Some e -> read_m s !! k2 = Some e -> k1 = k2) /\
+  (forall k e, read_m s !! k = Some e -> (e < next_e s)%nat) /\
+  match dirty s with
+  | None => amended s = false /\ forall k e, read_m s !! k = Some e -> get_ent s e <> PExpunged
+  | Some d =>
+      amended s = true /\
+      (forall k1 k2 e, d !! k1 = Some e -> d !! k2 = Some e -> k1 = k2) /\
+      (forall k e, d !! k = Some e ->
+         (e < next_e s)%nat /\ get_ent s e <> PExpunged /\
+         (read_m s !! k = None -> exists v, get_ent s e = PVal v) /\
+         (forall k', read_m s !! k' = Some e -> k' = k)) /\
+      (forall k e, read_m s !! k = Some e ->
+         d !! k = if decide (get_ent s e = PExpunged) then None else Some e)
+  end.
+
+Lemma not_exp_get s e : is_exp s e = false -> get_ent s e <> PExpunged.
+Proof. unfold is_exp. destruct (get_ent s e); congruence. Qed.
+
+Lemma WF_WF2_seq s : WF s -> WF2 s -> seq_WF s.
+Proof.
+  intros [Hc Ha] H2. split; [|split].
+  - intros k1 k2 e Ha1 Ha2. apply (wf_inj s Hc k1 k2 e); left; assumption.
+  - intros k e Hk. apply (wf_bound s Hc k e). left. exact Hk.
+  - destruct (dirty s) as [d|] eqn:Hd.
+    + assert (DL : forall k e, d !! k = Some e -> dirty_lookup s k = Some e)
+        by (intros k e H; unfold dirty_lookup; rewrite Hd; exact H).
+      split; [|split; [|split]].
+      * destruct (amended s) eqn:E; [reflexivity|]. pose proof (wf_unamended s Ha E). congruence.
+      * intros k1 k2 e H1 H3. apply (wf_inj s Hc k1 k2 e); right; auto.
+      * intros k e Hk. split; [|split; [|split]].
+        -- apply (wf_bound s Hc k e). right. auto.
+        -- apply not_exp_get. apply (wf_dirty_live s Hc k e). auto.
+        -- intros Hn. apply (H2 k e); auto.
+        -- intros k' Hk'. apply (wf_inj s Hc k' k e); [left|right]; auto.
+      * intros k e Hk. rewrite (wf_cover s Ha d k e Hd Hk). destruct (is_exp s e) eqn:E.
+        -- apply is_exp_get in E. rewrite decide_True by exact E. reflexivity.
+        -- rewrite decide_False by (apply not_exp_get; exact E). reflexivity.
+    + split.
+      * destruct (amended s) eqn:E; [|reflexivity]. exfalso. apply (wf_amended s Hc E). exact Hd.
+      * intros k e Hk. apply not_exp_get. apply (wf_clean s Hc Hd k e Hk).
+Qed.
+
+Theorem seq_WF_when_unlocked n progs sched j i :
+  let c := run_schedule (init_config n progs) sched in
+  nth_error (c_insts c) j = Some i -> i_mu i = None -> seq_WF (i_st i).
+Proof.
+  intros c Hi Hmu. apply WF_WF2_seq.
+  - apply (structure_lock_free n progs sched j i Hi Hmu).
+  - apply (i2_wf2 c (Inv2_reachable n progs sched) j i Hi).
+Qed.
+
+(* entries that were never in a read map hold a value, at every moment *)
+Theorem dirty_only_entries_hold_values n progs sched j i :
+  let c := run_schedule (init_config n progs) sched in
+  nth_error (c_insts c) j = Some i ->
+  forall k e, dirty_lookup (i_st i) k = Some e -> read_m (i_st i) !! k = None -> exists v, get_ent (i_st i) e = PVal v.
+Proof. intros c Hi. apply (i2_wf2 c (Inv2_reachable n progs sched) j i Hi). Qed.
+
+(* the entry a goroutine is about to compare-and-swap on a lock-free path
+   (tryStore, tryLoadOrStore, entry.delete on an entry of a read map) is still
+   the one the current read map holds for the key, or it is expunged and no
+   longer reachable from either map (so the CAS fails / reports a miss) *)
+Theorem stale_entry_is_dead n progs sched t f i e :
+  let c := run_schedule (init_config n progs) sched in
+  top_frame c t = Some f -> nth_error (c_insts c) (call_inst (f_call f)) = Some i -> f_e f = Some e ->
+  (f_pc f = TryStore_load \/ f_pc f = TryStore_cas \/
+   ((f_pc f = Tlos_load1 \/ f_pc f = Tlos_cas \/ f_pc f = Tlos_load2) /\ f_mode f = MFast) \/
+   ((f_pc f = Delete_load \/ f_pc f = Delete_cas) /\ f_rd_m f !! key_of (f_call f) <> None)) ->
+  pub_or_dead (i_st i) (key_of (f_call f)) e.
+Proof.
+  intros c Hf Hi He Hpc. pose proof (Inv2_reachable n progs sched) as HI2.
+  destruct (i2_ref c HI2 t f i Hf Hi) as [Hre _]. pose proof (i2_pc c HI2 t f Hf) as Hpk.
+  unfold ref_e in Hre. unfold frame_pc_ok in Hpk.
+  destruct Hpc as [Hpc|[Hpc|[[Hpc Hm]|[Hpc Hrd]]]].
+  - rewrite Hpc in Hre. apply Hre, He.
+  - rewrite Hpc in Hre. apply Hre, He.
+  - destruct Hpc as [Hpc|[Hpc|Hpc]]; rewrite Hpc in Hre; specialize (Hre e He); rewrite Hm in Hre; exact Hre.
+  - assert (Hlad : is_lad (f_call f) = true) by (destruct Hpc as [Hpc|Hpc]; rewrite Hpc in Hpk; eapply is_lad_pc_ok; eauto 10).
+    rewrite Hlad in Hre. destruct (f_rd_m f !! key_of (f_call f)) eqn:E; [|congruence].
+    destruct Hpc as [Hpc|Hpc]; rewrite Hpc in Hre; apply Hre, He.
+Qed.
